@@ -32,6 +32,12 @@ def configs(tier, seed):
                 cc.update(harness="tls-cut", name="cut-%s%s-part%d" % (c["name"], "-seg%d" % seg if seg else "", sl), seg_size=seg, records=2,
                           max_len=1, cut_slice=[sl, slices])
                 out.append(cc)
+    # the capture clock steps back somewhere inside the connection (times are not monotonic; capture order is what counts)
+    base = [c for c in out if c["harness"] == "tls-cut" and not c.get("seg_size")]
+    for c in base[:2] if tier == "quick" else base[:8]:
+        cc = dict(c)
+        cc.update(name=c["name"] + "-clock-step", clock_step=True)
+        out.append(cc)
     from tlv.harness import c05
     for c5 in c05.configs("quick", seed):          # C05's thorough plans (3 records, 3 cuts) times every cut index are out of reach
         if c5["harness"] != "segmentation" or c5["isn"] != "any" or c5["transform"] == "cuts" or c5["ncuts"] == 0:
@@ -187,6 +193,8 @@ def run_config(cfg):
         items, keylog, meta = SC.build(cfg, src)
         ep = P.Endpoint(ipv=cfg.get("ipv", 4))
         frames = P.tcp_frames(ep, items, seg_size=cfg.get("seg_size"))
+        if cfg.get("clock_step"):
+            frames = P.clock_step(frames, sym_choice("clock_step_at", P.clock_step_positions(len(frames))))
         sl, nsl = cfg.get("cut_slice", [0, 1])
         allcuts = list(range(0, len(frames) + 1))
         mine = [x for x in allcuts if x % nsl == sl]
@@ -246,6 +254,10 @@ def _concrete(cfg, inp):
     items, keylog, meta = SC.build(cfg, src)
     ep = P.Endpoint(ipv=cfg.get("ipv", 4))
     pk = e2e.concrete_frames(ep, items, seg_size=cfg.get("seg_size"))
+    if cfg.get("clock_step"):
+        opts = P.clock_step_positions(len(pk))
+        k = opts[inp.get("clock_step_at", 0)] if len(opts) > 1 else opts[0]
+        pk = [(f, t) if i < k else (f, t - 50000000) for i, (f, t) in enumerate(pk)]
     sl, nsl = cfg.get("cut_slice", [0, 1])
     mine = [x for x in range(0, len(pk) + 1) if x % nsl == sl]
     j = mine[inp.get("cut", 0)] if len(mine) > 1 else mine[0]
